@@ -740,10 +740,128 @@ def self_referential_indexed_assignment(rng):
     return {"runs": [(P([("end", stmts)]), [])]}
 
 
+def _ack(typed):
+    t = "int" if typed else None
+    return ("func", "ack", [(t, "m"), (t, "n")], t,
+            [("if", [(Bn("==", L("m"), I(0)), [("return", Bn("+", L("n"), I(1)))])], None),
+             ("if", [(Bn("==", L("n"), I(0)), [("return", ("ucall", "ack", [Bn("-", L("m"), I(1)), I(1)]))])], None),
+             ("return", ("ucall", "ack", [Bn("-", L("m"), I(1)), ("ucall", "ack", [L("m"), Bn("-", L("n"), I(1))])]))])
+
+
+def _tak(typed, ret):
+    t = "int" if typed else None
+    rec = lambda a, b, c: ("ucall", "tak", [a, b, c])
+    x, y, z = L("x"), L("y"), L("z")
+    return ("func", "tak", [(t, "x"), (t, "y"), (t, "z")], t,
+            [("if", [(Bn(">=", y, x), [("return", L(ret))])], None),
+             ("return", rec(rec(Bn("-", x, I(1)), y, z), rec(Bn("-", y, I(1)), z, x), rec(Bn("-", z, I(1)), x, y)))])
+
+
+def nested_recursion(rng):
+    """each call sees exactly the argument values computed at its own callsite, also when evaluating a later argument
+    re-enters the same callsite (Ackermann, Takeuchi, generic f(a-1, f(a-1, b)) shapes, mutual pairs, subr form,
+    calls from higher-order-function callbacks)."""
+    kind = rng.choice(["ack", "tak", "gen2", "gen3", "mutual", "subr", "hof", "funclit"])
+    typed = rng.random() < 0.5
+    k1, k2 = rng.randint(1, 4), rng.randint(0, 3)
+    op = rng.choice(["+", "-", "*"])
+    fl = lambda ps, e: ("funclit", [(None, q) for q in ps], None, [("return", e)])
+    recs = None
+    if kind == "ack":
+        defs = [_ack(typed)]
+        calls = [("ucall", "ack", [I(rng.randint(0, 2)), I(rng.randint(0, 3))]) for _ in range(rng.randint(1, 3))]
+        recs = [{"m": rng.randint(0, 2), "n": rng.randint(0, 3)} for _ in range(rng.randint(1, 4))]
+        main = [asg(F("a"), ("ucall", "ack", [F("m"), F("n")]))]
+    elif kind == "tak":
+        defs = [_tak(typed, rng.choice(["z", "y"]))]
+        calls = [("ucall", "tak", [I(rng.randint(0, 4)), I(rng.randint(0, 3)), I(rng.randint(0, 2))]) for _ in range(rng.randint(1, 3))]
+    elif kind == "gen2":
+        t = "int" if typed else None
+        inner = ("ucall", "g", [Bn("-", L("a"), I(1)), Bn(op, L("b"), I(k1))])
+        shape = rng.choice([0, 1, 2])
+        if shape == 0:
+            ret = ("ucall", "g", [Bn("-", L("a"), I(1)), inner])                                   # g(a-1, g(a-1, b op k))
+        elif shape == 1:
+            ret = Bn("+", ("ucall", "g", [Bn("-", L("a"), I(1)), inner]), L("a"))
+        else:
+            ret = ("ucall", "g", [Bn("-", L("a"), I(1)), Bn("+", inner, ("ucall", "g", [Bn("-", L("a"), I(2)), L("a")]))])
+        defs = [("func", "g", [(t, "a"), (t, "b")], t,
+                 [("if", [(Bn("<=", L("a"), I(0)), [("return", Bn("+", L("b"), I(k2)))])], None),
+                  ("decl", "var", "keep", Bn("*", L("a"), I(10))), ("return", Bn("+", ret, Bn("-", L("keep"), Bn("*", L("a"), I(10)))))])]
+        calls = [("ucall", "g", [I(rng.randint(0, 4)), I(rng.randint(0, 9))]) for _ in range(rng.randint(1, 3))]
+    elif kind == "gen3":
+        inner = ("ucall", "h", [Bn("-", L("a"), I(1)), L("c"), Bn("+", L("b"), I(k1))])
+        outer = rng.choice([("ucall", "h", [Bn("-", L("a"), I(1)), L("b"), inner]),
+                            ("ucall", "h", [Bn("-", L("a"), I(1)), inner, L("c")]),
+                            ("ucall", "h", [Bn("-", L("a"), I(1)), inner, ("ucall", "h", [Bn("-", L("a"), I(1)), L("b"), L("c")])])])
+        defs = [("func", "h", [(None, "a"), (None, "b"), (None, "c")], None,
+                 [("if", [(Bn("<=", L("a"), I(0)), [("return", Bn(op, Bn("*", L("b"), I(2)), L("c")))])], None), ("return", outer)])]
+        calls = [("ucall", "h", [I(rng.randint(0, 3)), I(rng.randint(0, 5)), I(rng.randint(0, 5))]) for _ in range(rng.randint(1, 3))]
+    elif kind == "mutual":
+        defs = [("func", "p", [(None, "a"), (None, "b")], None,
+                 [("if", [(Bn("<=", L("a"), I(0)), [("return", L("b"))])], None),
+                  ("return", ("ucall", "q", [Bn("-", L("a"), I(1)), ("ucall", "p", [Bn("-", L("a"), I(1)), Bn("+", L("b"), I(k1))])]))]),
+                ("func", "q", [(None, "a"), (None, "b")], None,
+                 [("if", [(Bn("<=", L("a"), I(0)), [("return", Bn("*", L("b"), I(2)))])], None),
+                  ("return", ("ucall", "p", [Bn("-", L("a"), I(1)), Bn("+", ("ucall", "q", [Bn("-", L("a"), I(1)), L("b")]), I(1))]))])]
+        rng.shuffle(defs)
+        calls = [("ucall", rng.choice(["p", "q"]), [I(rng.randint(0, 4)), I(rng.randint(0, 5))]) for _ in range(rng.randint(1, 3))]
+    elif kind == "subr":
+        # the subroutine's own callsite is re-entered while its second argument is being evaluated
+        defs = [("subr", "s", [(None, "a"), (None, "b")],
+                 [pr(Sx("s"), L("a"), L("b")), ("if", [(Bn(">", L("a"), I(0)), [("call", "s", [Bn("-", L("a"), I(1)), ("ucall", "viasub", [Bn("-", L("a"), I(1)), L("b")])])])], None)]),
+                ("func", "viasub", [(None, "a"), (None, "b")], None, [("call", "s", [L("a"), Bn("+", L("b"), I(100))]), ("return", Bn("+", Bn("*", L("a"), I(10)), L("b")))])]
+        body = [("call", "s", [I(rng.randint(0, 3)), I(rng.randint(0, 9))])]
+        return {"runs": [(P(defs + [("end", body)]), [])]}
+    elif kind == "hof":
+        defs = [_ack(typed)]
+        arr = ("arr", [I(rng.randint(0, 3)) for _ in range(rng.randint(1, 4))])
+        calls = [call("apply", arr, fl(["e"], ("ucall", "ack", [I(rng.randint(1, 2)), L("e")]))),
+                 call("fold", arr, fl(["acc", "e"], Bn("+", L("acc"), ("ucall", "ack", [I(2), ("ucall", "ack", [I(1), L("e")])]))), I(0)),
+                 call("sort", ("arr", [I(v) for v in rng.sample(range(4), 3)]), fl(["u", "w"], Bn("<=>", ("ucall", "ack", [I(2), L("w")]), ("ucall", "ack", [I(2), L("u")])))),
+                 call("select", arr, fl(["e"], Bn(">", ("ucall", "ack", [I(1), ("ucall", "ack", [I(1), L("e")])]), I(3))))]
+        calls = rng.sample(calls, rng.randint(1, 3))
+    else:
+        # a function literal bound to a local recursing through that local (literals see enclosing locals)
+        lit = ("funclit", [(None, "a"), (None, "b")], None,
+               [("if", [(Bn("<=", L("a"), I(0)), [("return", Bn("+", L("b"), I(k2)))])], None),
+                ("return", ("lcall", "fl", [Bn("-", L("a"), I(1)), ("lcall", "fl", [Bn("-", L("a"), I(1)), Bn(op, L("b"), I(k1))])]))])
+        body = [asg(L("fl"), lit)] + [pr(("lcall", "fl", [I(rng.randint(0, 3)), I(rng.randint(0, 5))])) for _ in range(rng.randint(1, 2))]
+        return {"runs": [(P([("end", body)]), [])]}
+    if recs is not None and rng.random() < 0.5:
+        return {"runs": [(P(defs + main), recs)]}
+    body = [pr(c) for c in calls]
+    if rng.random() < 0.3:
+        body = [asg(L("r%d" % i), c) for i, c in enumerate(calls)] + [pr(*[L("r%d" % i) for i in range(len(calls))])]
+    prog = defs + [("end", body)] if rng.random() < 0.6 else [("end", body)] + defs
+    return {"runs": [(P(prog), [])]}
+
+
+def chain_private_functions(rng):
+    """functions (named, literals, higher-order-function callbacks) and oosvars are private to each put of a then-chain,
+    also when both puts use the same names."""
+    k1, k2 = rng.sample([2, 3, 5, 7, 11], 2)
+    recs = G.gen_records(rng, rng.randint(1, 5), hetero=False)
+    fl = lambda k: ("funclit", [(None, "e")], None, [("return", Bn("+", L("e"), I(k)))])
+
+    def one(k, out1, out2, out3):
+        cmp_ = ("func", "cmpf", [(None, "u"), (None, "w")], None,
+                [("return", Bn("<=>", L("u"), L("w")) if k == k1 else Bn("<=>", L("w"), L("u")))])
+        return P([("func", "f", [(None, "a")], None, [("return", Bn("*", L("a"), I(k)))]), cmp_,
+                  asg(F(out1), ix(call("apply", ("arr", [F("x")]), L("f")), I(1))),
+                  asg(F(out2), ("ucall", "f", [F("i")])),
+                  asg(L("g"), fl(k)), asg(F(out3), Bn(".", ("lcall", "g", [F("i")]), Bn(".", Sx(":"), call("joinv", call("apply", ("arr", [F("i"), F("y")]), fl(k)), Sx(","))))),
+                  asg(F(out1 + "s"), call("joinv", call("sort", ("arr", [F("i"), Bn("+", F("i"), I(7)), Bn("+", F("i"), I(3))]), L("cmpf")), Sx(","))),
+                  opa("+", O("acc"), F("i")), asg(F(out1 + "acc"), O("acc"))])
+    p1 = one(k1, "y1", "y2", "y3")
+    p2 = one(k2, "z1", "z2", "z3")
+    return {"runs": [({"chain": [p1, p2]}, recs)]}
+
+
 SHAPES = {f.__name__: f for f in [
     shadow_inner_var, undeclared_updates_enclosing, locals_not_visible_in_callee, recursion_frames, loop_variables_scoped,
     by_value_arguments, oosvars_persist_and_private, field_positions, typed_declarations, indexing_shapes, autocreate_shapes,
     string_slices, emit_family, emit_other, filter_shapes, hof_shapes, loop_copy_semantics, for_typed_bind_variables,
     for_parenthesized_single_key, unset_shapes, begin_end_order, positional_names, break_continue_nested, absent_rules,
     op_assignments, presets, dot_and_types, map_literals_and_copies, parameter_redeclaration,
-    positional_rename_then_access, self_referential_indexed_assignment]}
+    positional_rename_then_access, self_referential_indexed_assignment, nested_recursion, chain_private_functions]}
